@@ -68,8 +68,15 @@ func (w *World) onKernelEvent(ev *simkernel.Event) {
 			w.d8Active = false
 		}
 	}
+	if ev.Tool == "ipset" && ev.Reject == simkernel.RejSetExists {
+		w.typeConflict = true
+		w.S.Stat("probe.ipset-create-refused-type-conflict")
+	}
 	if !w.armed("C15") {
 		return
+	}
+	if w.stage == 2 && ev.Changed {
+		w.changed2 = append(w.changed2, fmt.Sprintf("%s %v", ev.Tool, ev.Args))
 	}
 	// clause 4: a batch of rules that names a chain or set which does not exist at that point
 	batch := ev.Tool == "iptables-restore" || (ev.Tool == "iptables" && len(ev.Args) > 0 && (ev.Args[0] == "-A" || ev.Args[0] == "-I"))
@@ -79,7 +86,10 @@ func (w *World) onKernelEvent(ev *simkernel.Event) {
 			what += fmt.Sprintf(", line %d", ev.Line)
 		}
 		what += ")"
-		if w.d8Active {
+		if w.typeConflict {
+			w.fail("C15.missing-reference", "set-type-conflict", "%s after `ipset create` was refused (a set of another type holds the name), which makes syncRules return before any policy chain is written: %s",
+				what, strings.ReplaceAll(strings.TrimSpace(ev.Stdin), "\n", " | "))
+		} else if w.d8Active {
 			w.fail("C15.missing-reference", "D8", "%s after the policy-chain batch was refused with \"Too many links\" (stale policy chain still in use): %s",
 				what, strings.ReplaceAll(strings.TrimSpace(ev.Stdin), "\n", " | "))
 		} else {
@@ -98,7 +108,17 @@ func (w *World) checkForeign(at string) {
 		return
 	}
 	if f := foreignText(w.Kern); f != w.foreign0 {
-		w.fail("C15.foreign-modified", "foreign-modified", "foreign chains/rules/sets changed by %s: %s", at, firstDiffLine(w.foreign0, f))
+		// galaxy's clean-up of stale objects goes by name prefix ("GLX" for sets, "GLX-PLCY" for chains), which is
+		// wider than its own naming scheme: the two known casualties get their own keys
+		key := "foreign-modified"
+		d := firstDiffLine(w.foreign0, f)
+		switch {
+		case strings.Contains(d, "\"create GLX") || strings.Contains(d, "\"add GLX"):
+			key = "foreign-set-with-glx-prefix-destroyed"
+		case strings.Contains(d, "\":GLX-PLCY") || strings.Contains(d, "\"-A GLX-PLCY"):
+			key = "foreign-chain-with-glx-plcy-prefix-deleted"
+		}
+		w.fail("C15.foreign-modified", key, "foreign chains/rules/sets changed by %s: %s", at, d)
 	}
 }
 
@@ -202,20 +222,9 @@ func (w *World) oldAddressChains() map[string]bool {
 func (w *World) explainConvergence(d []DiffItem, e *Expected, o *Observed) (rest []DiffItem, used []string) {
 	local := w.localPodChains()
 	oldAddr := w.oldAddressChains()
-	s1, s3, n1 := false, false, false
-	flips := netRoleFlips(func(set string) []string {
-		if s := w.k0.Sets[set]; s != nil {
-			return s.Members
-		}
-		return nil
-	}, w.cl)
+	s1, s3 := false, false
 	for _, x := range d {
 		switch {
-		case x.Kind == "set-members" && lostOnly(e.Sets[x.Object], o.Sets[x.Object], flips[x.Object]):
-			// the set held a CIDR in the other role (block vs exception) when the synchronisation started:
-			// createIPSet adds the new form and then deletes the "stale" old form by its bare key - the same
-			// hash:net member - so the CIDR is gone until the next synchronisation
-			n1 = true
 		case x.Kind == "extra-pod-chain" && local[x.Object] == nil:
 			s1 = true
 		case x.Kind == "extra-dispatch" && strings.HasPrefix(x.Target, "GLX-POD-") && local[x.Target] == nil:
@@ -237,38 +246,7 @@ func (w *World) explainConvergence(d []DiffItem, e *Expected, o *Observed) (rest
 	if s3 {
 		used = append(used, "S3")
 	}
-	if n1 {
-		used = append(used, "ipblock-role-change-member-lost")
-	}
 	return rest, used
-}
-
-// lostOnly: the observed set equals the expected one minus exactly (some of) the role-flipped members.
-func lostOnly(es *ExpSet, os *ObsSet, flips map[string]bool) bool {
-	if es == nil || os == nil || len(flips) == 0 {
-		return false
-	}
-	have := map[string]bool{}
-	for _, m := range os.Members {
-		have[m] = true
-	}
-	want := map[string]bool{}
-	missing := 0
-	for _, m := range es.Members {
-		want[m] = true
-		if !have[m] {
-			if !flips[strings.Fields(m)[0]] {
-				return false
-			}
-			missing++
-		}
-	}
-	for m := range have {
-		if !want[m] {
-			return false
-		}
-	}
-	return missing > 0
 }
 
 func (w *World) afterFirstSync() {
@@ -290,15 +268,31 @@ func (w *World) afterFirstSync() {
 	// which differences do the listed C15 switches predict?
 	var rest []DiffItem
 	var used []string
+	conflict := typeConflicts(w.k0, e)
 	if len(d) > 0 {
 		rest = d
+		if len(conflict) > 0 {
+			// createIPSet returns at the refused create: sets after it (map order) are not reconciled, syncRules
+			// returns before the policy batch and before the stale sets are destroyed - D8's consequences plus sets
+			rest = explainD8(rest, e)
+			var r2 []DiffItem
+			for _, x := range rest {
+				switch x.Kind {
+				case "set-type", "set-members", "missing-set":
+				default:
+					r2 = append(r2, x)
+				}
+			}
+			rest = r2
+			used = append(used, "set-type-conflict")
+		}
 		if len(stale0) > 0 {
 			rest = explainD8(rest, e)
 			used = append(used, "D8")
 		}
 		var u2 []string
 		rest, u2 = w.explainConvergence(rest, e, o)
-		if len(stale0) == 0 {
+		if len(stale0) == 0 && len(conflict) == 0 {
 			used = u2 // with D8 in play the key stays "D8" (S1/S3 leftovers ride along, as before)
 		}
 	}
@@ -309,6 +303,9 @@ func (w *World) afterFirstSync() {
 			case len(rest) > 0:
 				w.fail("C15.not-converged", "unexplained:"+diffKinds(rest), "after a full synchronisation (prior state %s; switches that explain other differences: %v): %s",
 					w.priorDesc, used, diffText(rest, 8))
+			case len(conflict) > 0:
+				w.fail("C15.not-converged", "set-type-conflict", "a set of another type held a name galaxy needs when the synchronisation started (%s): %s",
+					strings.Join(conflict, ","), diffText(d, 6))
 			case len(stale0) > 0:
 				w.fail("C15.not-converged", "D8", "a stale policy chain was still in use when the synchronisation started (%s): %s",
 					strings.Join(stale0, ","), diffText(d, 6))
@@ -333,6 +330,17 @@ func (w *World) afterFirstSync() {
 		}
 		w.judgeFlows(o, "after one full synchronisation")
 	}
+}
+
+// typeConflicts lists the sets that exist under a name the current policies need, with another type.
+func typeConflicts(o *Observed, e *Expected) []string {
+	var out []string
+	for _, n := range sortedKeys(e.Sets) {
+		if os := o.Sets[n]; os != nil && os.Type != e.Sets[n].Type {
+			out = append(out, n)
+		}
+	}
+	return out
 }
 
 // explainD8 removes the differences switch D8 predicts. The policy-chain batch of the synchronisation was
@@ -387,6 +395,9 @@ func (w *World) afterSecondSync() {
 			}
 			w.judgeFlows(o, "after a second full synchronisation of the unchanged state")
 		}
+		if w.S.Viol == nil && w.S.Infra == "" {
+			w.judgeNodeTraffic(observe(w.Kern))
+		}
 		return
 	}
 	if !w.armed("C15") {
@@ -397,6 +408,13 @@ func (w *World) afterSecondSync() {
 		return
 	}
 	k2 := w.Kern.SaveAll()
+	if k2 == w.k1text && len(w.changed2) > 0 {
+		// same state at the end, but not because nothing was done: commands of the second synchronisation changed the
+		// kernel state on the way (a member or rule removed and put back) - traffic saw the intermediate states
+		w.fail("C15.not-idempotent", "unexplained-transient", "a second full synchronisation of the unchanged state changed the kernel %d time(s) before arriving at the same state: %s",
+			len(w.changed2), strings.Join(firstN(w.changed2, 3), " ; "))
+		return
+	}
 	if k2 != w.k1text {
 		// reached only when the first synchronisation converged, i.e. from a state without the precondition of
 		// any listed switch: nothing explains a change here
@@ -494,6 +512,64 @@ func (w *World) judgeFlows(o *Observed, when string) {
 		}
 	}
 	w.fail("C16.semantics", "unexplained", "%s rules and NetworkPolicy semantics disagree and no combination of listed switches reproduces it; e.g. %s", when, strings.Join(pureMis, " ; "))
+}
+
+func firstN(s []string, n int) []string {
+	if len(s) > n {
+		return s[:n]
+	}
+	return s
+}
+
+const nodeAddress = "192.168.1.10"
+
+// judgeNodeTraffic: the NetworkPolicy semantics always allow traffic between a pod and the node it runs on
+// (kubelet probes, node-local agents), whatever policies select the pod. galaxy hooks OUTPUT into GLX-INGRESS and
+// INPUT into GLX-EGRESS, so that traffic is walked too. Judged last (it is a separate clause with its own key and
+// must not end runs before the other clauses had their turn).
+func (w *World) judgeNodeTraffic(o *Observed) {
+	jumps := func(chain string) []string {
+		var out []string
+		for _, r := range o.Chains[chain] {
+			if r.Target == ingressDispatch || r.Target == egressDispatch {
+				out = append(out, r.Target)
+			}
+		}
+		return out
+	}
+	toPod, fromPod := jumps("OUTPUT"), jumps("INPUT")
+	ports := append([]int{}, portPool...)
+	ports = append(ports, 9999)
+	var bad []string
+	n := 0
+	for _, p := range w.cl.podList() {
+		if !p.local() || p.IP == "" {
+			continue
+		}
+		for _, proto := range []string{"tcp", "udp"} {
+			for _, port := range ports {
+				for dir, f := range []Flow{{Src: nodeAddress, Dst: p.IP, Proto: proto, Port: port}, {Src: p.IP, Dst: nodeAddress, Proto: proto, Port: port}} {
+					targets := toPod
+					if dir == 1 {
+						targets = fromPod
+					}
+					ok, err := w.walkFlow(targets, f)
+					if err != nil {
+						w.S.Infra = "packet walk: " + err.Error()
+						return
+					}
+					n++
+					if !ok && len(bad) < 4 {
+						bad = append(bad, w.describeFlow(f))
+					}
+				}
+			}
+		}
+	}
+	w.S.Stats["c16.node-flows"] += n
+	if len(bad) > 0 {
+		w.fail("C16.node-traffic", "node-traffic-subject-to-policy", "traffic between a pod and its own node must always be admitted, but the installed rules (OUTPUT -> GLX-INGRESS, INPUT -> GLX-EGRESS) refuse: %s", strings.Join(bad, " ; "))
+	}
 }
 
 func verdict(a bool) string {
